@@ -169,13 +169,16 @@ pub fn world(rng: &mut Rng) -> GWorld {
         }
         let mut e = GEntity::default();
         // parents only among later pool members => acyclic
+        // (the JSON entity format refuses action entities with non-action parents,
+        // so worlds keep actions' parents among actions to stay loadable by every route)
+        let is_action = |u: &Uid| u.ty == "Action" || u.ty.ends_with("::Action");
         for p in all.iter().skip(i + 1) {
-            if rng.chance(1, 3) {
+            if rng.chance(1, 3) && (!is_action(u) || is_action(p)) {
                 e.parents.insert(p.clone());
             }
         }
         if rng.chance(1, 8) {
-            e.parents.insert(Uid::new("A", "dangling"));
+            e.parents.insert(if is_action(u) { Uid::new("Action", "dangling-group") } else { Uid::new("A", "dangling") });
         }
         for _ in 0..rng.below(4) {
             e.attrs.insert(pools::attr(rng), any_value(rng, 2, &all));
